@@ -117,6 +117,7 @@ pub fn install_panic_counter() {
             let loc = info.location().map(|l| format!("{}:{}", l.file(), l.line())).unwrap_or_default();
             let msg = if let Some(s) = info.payload().downcast_ref::<&str>() { s.to_string() }
                       else if let Some(s) = info.payload().downcast_ref::<String>() { s.clone() } else { "?".into() };
+            if std::env::var_os("C07_PANIC_TRACE").is_some() { eprintln!("panic at {loc}: {msg}"); }   // debugging aid for harness-side crashes
             *LAST_PANIC.lock() = format!("{loc}: {msg}");
             prev(info);
         }));
